@@ -168,16 +168,34 @@ func dedupLoop(configArgs map[string]string, w *fsnotify.Watcher, completedChann
 }
 
 // Returns the directories to watch after parsing all package imports, or nil if the package could not be loaded
-func generateInWatchMode(configArgs map[string]string) []string {
+func generateInWatchMode(configArgs map[string]string) (dirsToWatch []string) {
+	var packageInfo *packaging.PackageInfo
 	defer func() {
 		if err := recover(); err != nil {
 			screen.Clear()
 			screen.MoveTopLeft()
 			fmt.Printf("panic: %v \n%s", err, string(debug.Stack()))
 		}
+
+		// The directories are watched whatever became of the generation, also if it
+		// failed or panicked: the cause may be in any of them, and correcting it has to
+		// trigger a regeneration.
+		if packageInfo == nil {
+			return
+		}
+		// Model files are read from subdirectories too, and watches are not recursive.
+		dirsToWatch = withSubdirectories(".")
+		for _, ref := range packageInfo.GetAllReferencedPackages() {
+			dirsToWatch = append(dirsToWatch, withSubdirectories(ref.PackageDir())...)
+		}
 	}()
 
-	packageInfo, warnings, err := generateImpl(configArgs)
+	var err error
+	var warnings []string
+	packageInfo, err = loadPackageWithArgs(configArgs)
+	if err == nil {
+		warnings, err = generateLoadedPackage(packageInfo)
+	}
 	screen.Clear()
 	screen.MoveTopLeft()
 
@@ -191,17 +209,7 @@ func generateInWatchMode(configArgs map[string]string) []string {
 		WriteSuccessfulSummary(packageInfo)
 	}
 
-	// The referenced packages are watched even if the generation failed: the error may
-	// be in one of them, and fixing it has to trigger a regeneration.
-	if packageInfo == nil {
-		return nil
-	}
-	// Model files are read from subdirectories too, and watches are not recursive.
-	dirsToWatch := withSubdirectories(".")
-	for _, ref := range packageInfo.GetAllReferencedPackages() {
-		dirsToWatch = append(dirsToWatch, withSubdirectories(ref.PackageDir())...)
-	}
-	return dirsToWatch
+	return
 }
 
 // Returns dir and every directory below it
@@ -232,54 +240,64 @@ func WriteSuccessfulSummary(packageInfo *packaging.PackageInfo) {
 }
 
 func generateImpl(configArgs map[string]string) (*packaging.PackageInfo, []string, error) {
+	packageInfo, err := loadPackageWithArgs(configArgs)
+	if err != nil {
+		return packageInfo, nil, err
+	}
+
+	warnings, err := generateLoadedPackage(packageInfo)
+	return packageInfo, warnings, err
+}
+
+func loadPackageWithArgs(configArgs map[string]string) (*packaging.PackageInfo, error) {
 	inputDir, err := os.Getwd()
 	if err != nil {
-		return nil, nil, err
+		return nil, err
 	}
 
 	packageInfo, err := packaging.LoadPackage(inputDir)
 	if err != nil {
-		return packageInfo, nil, err
+		return packageInfo, err
 	}
 
-	if err := updatePackageInfoFromArgs(packageInfo, configArgs); err != nil {
-		return packageInfo, nil, err
-	}
+	return packageInfo, updatePackageInfoFromArgs(packageInfo, configArgs)
+}
 
+func generateLoadedPackage(packageInfo *packaging.PackageInfo) ([]string, error) {
 	env, warnings, err := validatePackage(packageInfo)
 	if err != nil {
-		return packageInfo, warnings, err
+		return warnings, err
 	}
 
 	if packageInfo.Cpp != nil && !packageInfo.Cpp.Disabled {
 		err = cpp.Generate(env, *packageInfo.Cpp)
 		if err != nil {
-			return packageInfo, warnings, err
+			return warnings, err
 		}
 	}
 
 	if packageInfo.Python != nil && !packageInfo.Python.Disabled {
 		err = python.Generate(env, *packageInfo.Python)
 		if err != nil {
-			return packageInfo, warnings, err
+			return warnings, err
 		}
 	}
 
 	if packageInfo.Json != nil && !packageInfo.Json.Disabled {
 		err = outputJson(env, packageInfo.Json)
 		if err != nil {
-			return packageInfo, warnings, err
+			return warnings, err
 		}
 	}
 
 	if packageInfo.Matlab != nil && !packageInfo.Matlab.Disabled {
 		err = matlab.Generate(env, *packageInfo.Matlab)
 		if err != nil {
-			return packageInfo, warnings, err
+			return warnings, err
 		}
 	}
 
-	return packageInfo, warnings, err
+	return warnings, err
 }
 
 func outputJson(env *dsl.Environment, options *packaging.JsonCodegenOptions) error {
